@@ -190,14 +190,24 @@ pub fn run(tier: Tier) -> i32 {
     let oracle = Arc::new(C01 { full_triple: false });
     let plan = standard_plan(tier, 2);
     run_plan(&run, &oracle, &plan);
-    // complete 64x64x5 legality sweep: every root and everything within 1 (quick) / 2 (thorough)
-    // plies of it, plus every 64th (quick: 512th) member of the en-passant / castling / promotion families
+    // complete 64x64x5 legality sweep: every root, the children of every 4th root (thorough: everything
+    // within 2 plies of every root), plus every 64th (quick: 2048th) member of the en-passant / castling / promotion families
     if !run.has_violation() {
         let full = Arc::new(C01 { full_triple: true });
         let rs: Vec<RefPos> = crate::universe::roots().into_iter().map(|r| r.pos).collect();
         let before = run.get("full_triple_sweeps");
-        sweep_family(&run, &full, rs.len() as u64, |i| Some(rs[i as usize]), tier.pick(1, 2));
-        let stride = tier.pick(512u64, 64u64);
+        match tier {
+            Tier::Quick => {
+                // every root, and the children of every 4th root
+                sweep_family(&run, &full, rs.len() as u64, |i| Some(rs[i as usize]), 0);
+                let some: Vec<RefPos> = rs.iter().step_by(4).flat_map(|p| p.legal_moves().into_iter().map(move |m| p.apply(m))).collect();
+                sweep_family(&run, &full, some.len() as u64, |i| Some(some[i as usize]), 0);
+            }
+            Tier::Thorough => {
+                sweep_family(&run, &full, rs.len() as u64, |i| Some(rs[i as usize]), 2);
+            }
+        }
+        let stride = tier.pick(2048u64, 64u64);
         for f in [
             Box::new(crate::universe::EpFamily { extra: crate::universe::Extra::EnemySlider }) as Box<dyn crate::universe::Family>,
             Box::new(crate::universe::CastleFamily { extras: 1, opp_rights: false }),
